@@ -83,6 +83,7 @@ func relevant(o *Obligation, c *Contract, prop string) bool {
 func cmdCheck(args []string) int {
 	fs := flag.NewFlagSet("check", flag.ExitOnError)
 	prop := fs.String("prop", "", "property id (Cxx); empty = all obligations")
+	reportAs := fs.String("report-as", "", "property id named in VIOLATION lines and replay files (default: -prop); used when the obligations of one property are checked on behalf of another")
 	tier := fs.String("tier", "quick", "quick|thorough")
 	repo := fs.String("repo", "/repo", "repository root")
 	verif := fs.String("verif", "/verif", "verif root")
@@ -375,8 +376,8 @@ func cmdCheck(args []string) int {
 			o.Result.Output = r.Err
 			nObl++
 			nViol++
-			rp := writeReplay(*verif, *prop, o, nil, nil)
-			pid := *prop
+			rp := writeReplay(*verif, firstNonEmpty(*reportAs, *prop), o, nil, nil)
+			pid := firstNonEmpty(*reportAs, *prop)
 			if pid == "" {
 				pid = "ANY"
 			}
@@ -447,12 +448,12 @@ func cmdCheck(args []string) int {
 			if !*noReplay {
 				model, rr = prog.replayObligation(o, smtDir)
 			}
-			rp := writeReplay(*verif, *prop, o, model, rr)
+			rp := writeReplay(*verif, firstNonEmpty(*reportAs, *prop), o, model, rr)
 			suffix := ""
 			if rr == nil || !rr.Confirmed {
 				suffix = " no-failing-input-found"
 			}
-			pid := *prop
+			pid := firstNonEmpty(*reportAs, *prop)
 			if pid == "" {
 				pid = "ANY"
 			}
@@ -608,4 +609,11 @@ func (p *Program) lemmaObligation(l *Lemma) (o *Obligation, err error) {
 	}
 	sb.WriteString("; lemma " + l.Name + "\n(assert (not " + t + "))\n(check-sat)\n")
 	return &Obligation{Name: "lemma/" + l.Name, Fn: "spec", Kind: "lemma", Tags: l.Tags, Desc: l.E.String(), Query: sb.String(), Expect: "unsat"}, nil
+}
+
+func firstNonEmpty(a, b string) string {
+	if a != "" {
+		return a
+	}
+	return b
 }
